@@ -3,7 +3,7 @@
 cd "$(dirname "$0")/.."
 SEEDS="$1"; shift
 for id in "$@"; do for s in $SEEDS; do
-  VERIF_SEED=$s ./check $id quick > /tmp/seeds_$id_$s.txt 2>&1; rc=$?
-  echo "$id seed=$s rc=$rc $(grep -c '^VIOLATION' /tmp/seeds_$id_$s.txt) viol | $(tail -1 /tmp/seeds_$id_$s.txt | cut -c1-250)"
-  grep -m2 '^violation' /tmp/seeds_$id_$s.txt | cut -c1-400
+  VERIF_SEED=$s ./check $id quick > /tmp/seeds_${id}_${s}.txt 2>&1; rc=$?
+  echo "$id seed=$s rc=$rc $(grep -c '^VIOLATION' /tmp/seeds_${id}_${s}.txt) viol | $(tail -1 /tmp/seeds_${id}_${s}.txt | cut -c1-250)"
+  grep -m2 '^violation' /tmp/seeds_${id}_${s}.txt | cut -c1-400
 done; done
